@@ -204,6 +204,8 @@ func (r *Run) verifyTop() {
 		}
 	}
 	fr.entry = st.clone()
+	r.ctx.DeclareOnce("top.entry", "(declare-const top.entry Int)")
+	r.ctx.Assert(Eq(Term{"top.entry", SInt}, r.heapGet(st, "$top")))
 	if r.spec != nil && r.spec.Implements != "" {
 		isp := r.specs.Funcs["iface:"+r.spec.Implements]
 		if isp == nil {
